@@ -34,6 +34,76 @@ let queries1 r o xs =
     | q -> failwith ("unknown query " ^ q)
   done
 
+(* sessions (s1, s2): the case is translated into a command list for the extracted [session_run]; the composite requests are
+   expanded into primitive ones in the order in which the harness issues them.  The answers are printed twice: the harness repeats
+   every primitive call on a fresh object after the session (second half of its output). *)
+let prim1 xa r : float query1 list =
+  let nq = integer r in
+  let acc = ref [] in
+  let add q = acc := q :: !acc in
+  for _ = 1 to nq do
+    match word r with
+    | "I" -> add (QI (num r))
+    | "D" -> let k = integer r in let x = num r in add (QD (z_of_int k, x))
+    | "L" -> add (QL (num r))
+    | "G" -> let j = integer r in let m = integer r in
+        let x0 = xa.(j) and x1 = xa.(j + 1) in
+        for k = 0 to m do
+          add (QI (if k = m then x1 else x0 +. (x1 -. x0) *. float_of_int k /. float_of_int m))
+        done
+    | "K" -> let x = num r in
+        let pts = [Float.pred x; x; Float.succ x] in
+        List.iter (fun p -> add (QI p)) pts; List.iter (fun p -> add (QD (z_of_int 1, p))) pts
+    | "F" -> let x = num r in let d = num r in
+        let pts = [x -. d; x; x +. d] in
+        for k = 0 to 2 do List.iter (fun p -> add (QD (z_of_int k, p))) pts done;
+        add (QD (z_of_int 3, x)); add (QD (z_of_int 4, x))
+    | "V" -> let x = num r in let d = num r in
+        for k = 1 to 3 do add (QD (z_of_int k, x)) done;
+        List.iter (fun p -> add (QI p)) [x -. 2.0 *. d; x -. d; x; x +. d; x +. 2.0 *. d]
+    | q -> failwith ("unknown query " ^ q)
+  done;
+  List.rev !acc
+
+let prim2 xa ya r : (float * float) list =
+  let nq = integer r in
+  let acc = ref [] in
+  for _ = 1 to nq do
+    match word r with
+    | "I" -> let x = num r in let y = num r in acc := (x, y) :: !acc
+    | "C" -> let i = integer r in let j = integer r in let m = integer r in
+        let x0 = xa.(i) and x1 = xa.(i + 1) and y0 = ya.(j) and y1 = ya.(j + 1) in
+        for a = 0 to m do
+          let x = if a = m then x1 else x0 +. (x1 -. x0) *. float_of_int a /. float_of_int m in
+          for b = 0 to m do
+            let y = if b = m then y1 else y0 +. (y1 -. y0) *. float_of_int b /. float_of_int m in
+            acc := (x, y) :: !acc
+          done
+        done
+    | q -> failwith ("unknown query " ^ q)
+  done;
+  List.rev !acc
+
+(* [read_tab r] reads the constructor arguments of an A segment and returns (constructor result, axes of the stored table) *)
+let session r (read_tab : reader -> 'o res * 'ax) (prims : 'ax -> reader -> 'q list) : ('o, 'q) scmd list =
+  let nseg = integer r in
+  let axes = Array.make 4 None in
+  let cmds = ref [] in
+  for _ = 1 to nseg do
+    let k =
+      match word r with
+      | "A" -> let _mode = word r in let k = integer r in
+          let (o, ax) = read_tab r in
+          axes.(k) <- Some ax; cmds := CPut (nat_of_int k, o) :: !cmds; k
+      | "C" -> let k = integer r in let src = integer r in
+          axes.(k) <- axes.(src); cmds := CCopy (nat_of_int k, nat_of_int src) :: !cmds; k
+      | "R" -> integer r
+      | w -> failwith ("unknown segment " ^ w) in
+    let ax = match axes.(k) with Some a -> a | None -> failwith "empty slot" in
+    List.iter (fun q -> cmds := CAsk (nat_of_int k, q) :: !cmds) (prims ax r)
+  done;
+  List.rev !cmds
+
 let handler r =
   try
     match word r with
@@ -76,6 +146,23 @@ let handler r =
               done
           | q -> failwith ("unknown query " ^ q)
         done
+    | "s1" ->
+        let cmds = session r
+            (fun r -> let xd = num r in let fd = num r in let xs = list r in let ys = list r in
+              (construct fops xs ys xd fd, Array.of_list (scaled xd xs)))
+            prim1 in
+        let outs = unres (session_run (answer_1d fops) [] cmds) in
+        for _ = 1 to 2 do
+          List.iter (function AV v -> put_f v | AJ j -> put_i (int_of_nat j)) outs
+        done
+    | "s2" ->
+        let cmds = session r
+            (fun r -> let xd = num r in let yd = num r in let fd = num r in
+              let xs = list r in let ys = list r in let f = table r in
+              (construct2 fops xs ys f xd yd fd, (Array.of_list (scaled xd xs), Array.of_list (scaled yd ys))))
+            (fun (xa, ya) r -> prim2 xa ya r) in
+        let outs = unres (session_run (answer_2d fops) [] cmds) in
+        for _ = 1 to 2 do List.iter put_f outs done
     | o -> put_w ("MODELERR unknown_op_" ^ o)
   with Stop s -> Buffer.clear buf; first := true; put_w s
 
